@@ -15,6 +15,7 @@ import RubatoModel.Fft
 
 set_option linter.unusedSectionVars false
 set_option linter.unusedVariables false
+set_option linter.unusedSimpArgs false
 
 namespace Rubato.Indep
 open Rubato
@@ -595,5 +596,614 @@ theorem trace_eq_from_init (kind : AKind) (ratio maxRel : ρ) (deg : Degree) (si
   have h := init_ctlEq kind ratio maxRel deg sint ip₁ ip₂ hl hn chunk nch
   rw [h₁, h₂] at h
   exact ⟨trace_eq ho h, run_ctlEq ho h⟩
+
+/-! ### The FFT adapters: control does not depend on the sample type either -/
+section Fft
+variable {σ₁ σ₂ υ₁ υ₂ : Type}
+
+/-- same control state of two synchronous resamplers over different sample / overlap types -/
+structure FCtlEq (s₁ : FState σ₁ υ₁) (s₂ : FState σ₂ υ₂) : Prop where
+  kind : s₁.kind = s₂.kind
+  nch : s₁.nch = s₂.nch
+  chunkIn : s₁.chunkIn = s₂.chunkIn
+  chunkOut : s₁.chunkOut = s₂.chunkOut
+  fftIn : s₁.fftIn = s₂.fftIn
+  fftOut : s₁.fftOut = s₂.fftOut
+  saved : s₁.saved = s₂.saved
+  framesNeeded : s₁.framesNeeded = s₂.framesNeeded
+  mask : s₁.mask = s₂.mask
+  ovLen : s₁.ov.length = s₂.ov.length
+  storeShape : s₁.store.map List.length = s₂.store.map List.length
+
+def FOutEq : Outcome (FCallOut σ₁) → Outcome (FCallOut σ₂) → Prop
+  | .ok o₁, .ok o₂ =>
+    o₁.nIn = o₂.nIn ∧ o₁.nOut = o₂.nOut ∧
+    o₁.out.map (Option.map List.length) = o₂.out.map (Option.map List.length)
+  | .err e₁, .err e₂ => e₁ = e₂
+  | .panic m₁, .panic m₂ => m₁ = m₂
+  | .abort m₁, .abort m₂ => m₁ = m₂
+  | _, _ => False
+
+/-- the two per-block resamplers produce blocks of the same length from blocks of the same length
+(true of `resample_unit`: always `fft_size_out` frames) -/
+def UnitLenEq (u₁ : FftUnit σ₁ υ₁) (u₂ : FftUnit σ₂ υ₂) : Prop :=
+  ∀ st₁ st₂ b₁ b₂, b₁.length = b₂.length → (u₁.run st₁ b₁).1.length = (u₂.run st₂ b₂).1.length
+
+theorem runBlocks_shape {u₁ : FftUnit σ₁ υ₁} {u₂ : FftUnit σ₂ υ₂} (hu : UnitLenEq u₁ u₂) (n : Nat) :
+    ∀ (bl₁ : List (List σ₁)) (bl₂ : List (List σ₂)) (st₁ : υ₁) (st₂ : υ₂),
+      bl₁.map List.length = bl₂.map List.length →
+      (runBlocks u₁ n st₁ bl₁).map (fun r => r.1.map List.length) =
+      (runBlocks u₂ n st₂ bl₂).map (fun r => r.1.map List.length) := by
+  intro bl₁
+  induction bl₁ with
+  | nil =>
+    intro bl₂ st₁ st₂ h
+    cases bl₂ with
+    | nil => rfl
+    | cons _ _ => simp at h
+  | cons b₁ bs₁ ih =>
+    intro bl₂ st₁ st₂ h
+    cases bl₂ with
+    | nil => simp at h
+    | cons b₂ bs₂ =>
+      simp only [List.map_cons, List.cons.injEq] at h
+      obtain ⟨hb, hbs⟩ := h
+      simp only [runBlocks, hb]
+      by_cases hn : b₂.length = n
+      · simp only [hn, ne_eq, not_true_eq_false, if_false]
+        have := ih bs₂ (u₁.run st₁ b₁).2 (u₂.run st₂ b₂).2 hbs
+        have hl := hu st₁ st₂ b₁ b₂ hb
+        cases h1 : runBlocks u₁ n (u₁.run st₁ b₁).2 bs₁ with
+        | none =>
+          cases h2 : runBlocks u₂ n (u₂.run st₂ b₂).2 bs₂ with
+          | none => rfl
+          | some r₂ => rw [h1, h2] at this; simp at this
+        | some r₁ =>
+          cases h2 : runBlocks u₂ n (u₂.run st₂ b₂).2 bs₂ with
+          | none => rw [h1, h2] at this; simp at this
+          | some r₂ =>
+            rw [h1, h2] at this
+            simp only [Option.map_some, Option.some.injEq] at this
+            simp only [Option.map_some, List.map_cons, hl, this]
+      · simp only [ne_eq, hn, not_false_eq_true, if_true, Option.map_none]
+
+theorem chunksOf_go_shape (n : Nat) :
+    ∀ (fuel : Nat) (l₁ : List σ₁) (l₂ : List σ₂), l₁.length = l₂.length →
+      (chunksOf.go n fuel l₁).map List.length = (chunksOf.go n fuel l₂).map List.length := by
+  intro fuel
+  induction fuel with
+  | zero => intro l₁ l₂ _; rfl
+  | succ fuel ih =>
+    intro l₁ l₂ h
+    have he : l₁.isEmpty = l₂.isEmpty := by
+      cases l₁ <;> cases l₂ <;> simp at h ⊢
+    simp only [chunksOf.go, he]
+    cases l₂.isEmpty with
+    | true => rfl
+    | false =>
+      simp only [Bool.false_eq_true, if_false, List.map_cons, List.length_take, h]
+      rw [ih (l₁.drop n) (l₂.drop n) (by simp [h])]
+
+theorem chunksOf_shape (n : Nat) (l₁ : List σ₁) (l₂ : List σ₂) (h : l₁.length = l₂.length) :
+    (chunksOf n l₁).map List.length = (chunksOf n l₂).map List.length := by
+  have he : l₁.isEmpty = l₂.isEmpty := by
+    cases l₁ <;> cases l₂ <;> simp at h ⊢
+  unfold chunksOf
+  rw [he, h]
+  split
+  · rfl
+  · split
+    · rfl
+    · exact chunksOf_go_shape n _ l₁ l₂ h
+
+/-- length of `overlay` as a function of the lengths -/
+def ovLen (b p d : Nat) : Nat := min p b + min d (b - p) + (b - (p + d))
+
+theorem overlay_len {σ : Type} (buf : List σ) (pos : Nat) (data : List σ) :
+    (overlay buf pos data).length = ovLen buf.length pos data.length := by
+  simp only [overlay, ovLen, List.length_append, List.length_take, List.length_drop]
+  omega
+
+/-- `mapActive` on inputs of the same shape: fails for both or gives results of the same shape -/
+theorem mapActive_go_shape {α₁ α₂ β₁ β₂ γ δ : Type} (sh₁ : α₁ → γ) (sh₂ : α₂ → γ) (t₁ : β₁ → δ) (t₂ : β₂ → δ)
+    (f₁ : Nat → α₁ → Option β₁) (f₂ : Nat → α₂ → Option β₂) (k₁ : α₁ → β₁) (k₂ : α₂ → β₂)
+    (hf : ∀ i x₁ x₂, sh₁ x₁ = sh₂ x₂ → (f₁ i x₁).map t₁ = (f₂ i x₂).map t₂)
+    (hk : ∀ x₁ x₂, sh₁ x₁ = sh₂ x₂ → t₁ (k₁ x₁) = t₂ (k₂ x₂)) :
+    ∀ (mask : List Bool) (i : Nat) (xs₁ : List α₁) (xs₂ : List α₂), xs₁.map sh₁ = xs₂.map sh₂ →
+      (mapActive.go f₁ k₁ i mask xs₁).map (List.map t₁) = (mapActive.go f₂ k₂ i mask xs₂).map (List.map t₂) := by
+  intro mask
+  induction mask with
+  | nil => intro i xs₁ xs₂ _; simp [mapActive.go]
+  | cons m ms ih =>
+    intro i xs₁ xs₂ h
+    cases xs₁ with
+    | nil =>
+      cases xs₂ with
+      | nil => simp [mapActive.go]
+      | cons _ _ => simp at h
+    | cons x₁ xs₁' =>
+      cases xs₂ with
+      | nil => simp at h
+      | cons x₂ xs₂' =>
+        simp only [List.map_cons, List.cons.injEq] at h
+        obtain ⟨hx, hxs⟩ := h
+        have ih' := ih (i + 1) xs₁' xs₂' hxs
+        have hhead : (if m = true then f₁ i x₁ else some (k₁ x₁)).map t₁ =
+            (if m = true then f₂ i x₂ else some (k₂ x₂)).map t₂ := by
+          cases m with
+          | true => simpa using hf i x₁ x₂ hx
+          | false => simpa using hk x₁ x₂ hx
+        simp only [mapActive.go]
+        cases h1 : (if m = true then f₁ i x₁ else some (k₁ x₁)) with
+        | none =>
+          cases h2 : (if m = true then f₂ i x₂ else some (k₂ x₂)) with
+          | none => rfl
+          | some y₂ => rw [h1, h2] at hhead; simp at hhead
+        | some y₁ =>
+          cases h2 : (if m = true then f₂ i x₂ else some (k₂ x₂)) with
+          | none => rw [h1, h2] at hhead; simp at hhead
+          | some y₂ =>
+            rw [h1, h2] at hhead
+            simp only [Option.map_some, Option.some.injEq] at hhead
+            simp only []
+            cases h3 : mapActive.go f₁ k₁ (i + 1) ms xs₁' with
+            | none =>
+              cases h4 : mapActive.go f₂ k₂ (i + 1) ms xs₂' with
+              | none => rfl
+              | some ys₂ => rw [h3, h4] at ih'; simp at ih'
+            | some ys₁ =>
+              cases h4 : mapActive.go f₂ k₂ (i + 1) ms xs₂' with
+              | none => rw [h3, h4] at ih'; simp at ih'
+              | some ys₂ =>
+                rw [h3, h4] at ih'
+                simp only [Option.map_some, Option.some.injEq] at ih'
+                simp only [Option.map_some, List.map_cons, hhead, ih']
+
+theorem map_zip_congr {α₁ α₂ β₁ β₂ γ δ : Type} (fa₁ : α₁ → γ) (fa₂ : α₂ → γ) (fb₁ : β₁ → δ) (fb₂ : β₂ → δ) :
+    ∀ (a₁ : List α₁) (a₂ : List α₂) (b₁ : List β₁) (b₂ : List β₂),
+      a₁.map fa₁ = a₂.map fa₂ → b₁.map fb₁ = b₂.map fb₂ →
+      (List.zip a₁ b₁).map (fun p => (fa₁ p.1, fb₁ p.2)) = (List.zip a₂ b₂).map (fun p => (fa₂ p.1, fb₂ p.2)) := by
+  intro a₁
+  induction a₁ with
+  | nil =>
+    intro a₂ b₁ b₂ ha _
+    cases a₂ with
+    | nil => simp
+    | cons _ _ => simp at ha
+  | cons x xs ih =>
+    intro a₂ b₁ b₂ ha hb
+    cases a₂ with
+    | nil => simp at ha
+    | cons y ys =>
+      cases b₁ with
+      | nil =>
+        cases b₂ with
+        | nil => simp
+        | cons _ _ => simp at hb
+      | cons z zs =>
+        cases b₂ with
+        | nil => simp at hb
+        | cons w ws =>
+          simp only [List.map_cons, List.cons.injEq] at ha hb
+          simp only [List.zip_cons_cons, List.map_cons, ha.1, hb.1, ih ys zs ws ha.2 hb.2]
+
+theorem map_unit_of_length {α₁ α₂ : Type} (a₁ : List α₁) (a₂ : List α₂) (h : a₁.length = a₂.length) :
+    a₁.map (fun _ => ()) = a₂.map (fun _ => ()) := by
+  rw [List.map_const', List.map_const', h]
+
+/-- the per-channel step of `FftFixedInOut` -/
+def fIo {σ υ : Type} (u : FftUnit σ υ) (fftIn chunkIn chunkOut : Nat) :
+    Nat → υ × List σ → Option (υ × Option (List σ)) :=
+  fun _ p => match runBlocks u fftIn p.1 [p.2.take chunkIn] with
+    | some ([o], st) => some (st, some (o.take chunkOut))
+    | _ => none
+
+theorem fIo_shape {u₁ : FftUnit σ₁ υ₁} {u₂ : FftUnit σ₂ υ₂} (hu : UnitLenEq u₁ u₂) (fi ci co i : Nat)
+    (p₁ : υ₁ × List σ₁) (p₂ : υ₂ × List σ₂) (h : ((), p₁.2.length) = ((), p₂.2.length)) :
+    (fIo u₁ fi ci co i p₁).map (fun r => r.2.map List.length) =
+    (fIo u₂ fi ci co i p₂).map (fun r => r.2.map List.length) := by
+  have h : p₁.2.length = p₂.2.length := by simpa using h
+  have hl : (p₁.2.take ci).length = (p₂.2.take ci).length := by simp [h]
+  have ho := hu p₁.1 p₂.1 _ _ hl
+  simp only [fIo, runBlocks, hl]
+  by_cases hn : (p₂.2.take ci).length = fi
+  · simp only [hn, ne_eq, not_true_eq_false, if_false, Option.map_some, List.length_take, ho]
+  · simp only [ne_eq, hn, not_false_eq_true, if_true, Option.map_none]
+
+/-- the per-channel step of `FftFixedIn` -/
+def fIn {σ υ : Type} (u : FftUnit σ υ) (fftIn fftOut chunkIn saved nextSaved nReady neededLen used : Nat) :
+    Nat → (υ × List σ) × (List σ × Nat) → Option (υ × List σ × Option (List σ)) :=
+  fun _ p =>
+    let ov := p.1.1
+    let store := overlay p.1.2 saved (p.2.1.take chunkIn)
+    let nOutChunks := if fftOut = 0 then 0 else (p.2.2 + fftOut - 1) / fftOut
+    let blocks := ((chunksOf fftIn store).take nReady).take nOutChunks
+    match runBlocks u fftIn ov blocks with
+    | none => none
+    | some (os, ov') =>
+      let outFrames := (os.flatten).take p.2.2
+      let store' := if nextSaved > used then overlay store 0 ((store.drop used).take (nextSaved - used)) else store
+      some (ov', store', some (outFrames.take neededLen))
+
+/-- shape of a per-channel result -/
+def rShape {σ υ : Type} (r : υ × List σ × Option (List σ)) : Nat × Option Nat := (r.2.1.length, r.2.2.map List.length)
+
+theorem fIn_shape {u₁ : FftUnit σ₁ υ₁} {u₂ : FftUnit σ₂ υ₂} (hu : UnitLenEq u₁ u₂)
+    (fi fo ci sv ns nr nl us i : Nat)
+    (p₁ : (υ₁ × List σ₁) × (List σ₁ × Nat)) (p₂ : (υ₂ × List σ₂) × (List σ₂ × Nat))
+    (h : (((), p₁.1.2.length), (p₁.2.1.length, p₁.2.2)) = (((), p₂.1.2.length), (p₂.2.1.length, p₂.2.2))) :
+    (fIn u₁ fi fo ci sv ns nr nl us i p₁).map rShape = (fIn u₂ fi fo ci sv ns nr nl us i p₂).map rShape := by
+  simp only [Prod.mk.injEq, true_and] at h
+  obtain ⟨h1, h2, h3⟩ := h
+  have hst : (overlay p₁.1.2 sv (p₁.2.1.take ci)).length = (overlay p₂.1.2 sv (p₂.2.1.take ci)).length := by
+    simp only [overlay_len, List.length_take, h1, h2]
+  have hbl := runBlocks_shape hu fi
+    (((chunksOf fi (overlay p₁.1.2 sv (p₁.2.1.take ci))).take nr).take (if fo = 0 then 0 else (p₁.2.2 + fo - 1) / fo))
+    (((chunksOf fi (overlay p₂.1.2 sv (p₂.2.1.take ci))).take nr).take (if fo = 0 then 0 else (p₂.2.2 + fo - 1) / fo))
+    p₁.1.1 p₂.1.1 (by simp only [List.map_take, chunksOf_shape fi _ _ hst, h3])
+  simp only [fIn]
+  cases e1 : runBlocks u₁ fi p₁.1.1 (((chunksOf fi (overlay p₁.1.2 sv (p₁.2.1.take ci))).take nr).take
+      (if fo = 0 then 0 else (p₁.2.2 + fo - 1) / fo)) with
+  | none =>
+    cases e2 : runBlocks u₂ fi p₂.1.1 (((chunksOf fi (overlay p₂.1.2 sv (p₂.2.1.take ci))).take nr).take
+        (if fo = 0 then 0 else (p₂.2.2 + fo - 1) / fo)) with
+    | none => rfl
+    | some r₂ => rw [e1, e2] at hbl; simp at hbl
+  | some r₁ =>
+    cases e2 : runBlocks u₂ fi p₂.1.1 (((chunksOf fi (overlay p₂.1.2 sv (p₂.2.1.take ci))).take nr).take
+        (if fo = 0 then 0 else (p₂.2.2 + fo - 1) / fo)) with
+    | none => rw [e1, e2] at hbl; simp at hbl
+    | some r₂ =>
+      rw [e1, e2] at hbl
+      simp only [Option.map_some, Option.some.injEq] at hbl
+      simp only [Option.map_some, Option.some.injEq, rShape, Prod.mk.injEq, List.length_take,
+        List.length_flatten, hbl, h3, and_true]
+      split
+      · simp only [overlay_len, List.length_take, List.length_drop, hst]
+      · exact hst
+
+/-- the per-channel step of `FftFixedOut` -/
+def fOut {σ υ : Type} (u : FftUnit σ υ) (fftIn fftOut chunkOut saved framesNeeded saved' : Nat) (copyOut : Bool) :
+    Nat → (υ × List σ) × List σ → Option (υ × List σ × Option (List σ)) :=
+  fun _ p =>
+    let ov := p.1.1
+    let store := p.1.2
+    let room := store.length - saved
+    let nOutChunks := if fftOut = 0 then 0 else (room + fftOut - 1) / fftOut
+    let blocks := (chunksOf fftIn (p.2.take framesNeeded)).take nOutChunks
+    match runBlocks u fftIn ov blocks with
+    | none => none
+    | some (os, ov') =>
+      let store1 := overlay store saved os.flatten
+      if copyOut then
+        let out := store1.take chunkOut
+        let store2 := overlay store1 0 ((store1.drop chunkOut).take saved')
+        some (ov', store2, some out)
+      else some (ov', store1, some [])
+
+theorem fOut_shape {u₁ : FftUnit σ₁ υ₁} {u₂ : FftUnit σ₂ υ₂} (hu : UnitLenEq u₁ u₂)
+    (fi fo co sv fn sv' : Nat) (cp : Bool) (i : Nat)
+    (p₁ : (υ₁ × List σ₁) × List σ₁) (p₂ : (υ₂ × List σ₂) × List σ₂)
+    (h : (((), p₁.1.2.length), p₁.2.length) = (((), p₂.1.2.length), p₂.2.length)) :
+    (fOut u₁ fi fo co sv fn sv' cp i p₁).map rShape = (fOut u₂ fi fo co sv fn sv' cp i p₂).map rShape := by
+  simp only [Prod.mk.injEq, true_and] at h
+  obtain ⟨h1, h2⟩ := h
+  have hbl := runBlocks_shape hu fi
+    ((chunksOf fi (p₁.2.take fn)).take (if fo = 0 then 0 else (p₁.1.2.length - sv + fo - 1) / fo))
+    ((chunksOf fi (p₂.2.take fn)).take (if fo = 0 then 0 else (p₂.1.2.length - sv + fo - 1) / fo))
+    p₁.1.1 p₂.1.1 (by simp only [List.map_take, chunksOf_shape fi _ _ (by simp [h2] : (p₁.2.take fn).length = (p₂.2.take fn).length), h1])
+  simp only [fOut]
+  cases e1 : runBlocks u₁ fi p₁.1.1 ((chunksOf fi (p₁.2.take fn)).take
+      (if fo = 0 then 0 else (p₁.1.2.length - sv + fo - 1) / fo)) with
+  | none =>
+    cases e2 : runBlocks u₂ fi p₂.1.1 ((chunksOf fi (p₂.2.take fn)).take
+        (if fo = 0 then 0 else (p₂.1.2.length - sv + fo - 1) / fo)) with
+    | none => rfl
+    | some r₂ => rw [e1, e2] at hbl; simp at hbl
+  | some r₁ =>
+    cases e2 : runBlocks u₂ fi p₂.1.1 ((chunksOf fi (p₂.2.take fn)).take
+        (if fo = 0 then 0 else (p₂.1.2.length - sv + fo - 1) / fo)) with
+    | none => rw [e1, e2] at hbl; simp at hbl
+    | some r₂ =>
+      rw [e1, e2] at hbl
+      simp only [Option.map_some, Option.some.injEq] at hbl
+      cases cp with
+      | true =>
+        simp only [if_true, Option.map_some, Option.some.injEq, rShape, Prod.mk.injEq, overlay_len,
+          List.length_take, List.length_drop, List.length_flatten, hbl, h1, and_self]
+      | false =>
+        simp only [Bool.false_eq_true, if_false, Option.map_some, Option.some.injEq, rShape, Prod.mk.injEq,
+          overlay_len, List.length_flatten, hbl, h1, List.length_nil, and_self]
+
+theorem mapActive_shape {α₁ α₂ β₁ β₂ γ δ : Type} (sh₁ : α₁ → γ) (sh₂ : α₂ → γ) (t₁ : β₁ → δ) (t₂ : β₂ → δ)
+    (f₁ : Nat → α₁ → Option β₁) (f₂ : Nat → α₂ → Option β₂) (k₁ : α₁ → β₁) (k₂ : α₂ → β₂)
+    (hf : ∀ i x₁ x₂, sh₁ x₁ = sh₂ x₂ → (f₁ i x₁).map t₁ = (f₂ i x₂).map t₂)
+    (hk : ∀ x₁ x₂, sh₁ x₁ = sh₂ x₂ → t₁ (k₁ x₁) = t₂ (k₂ x₂))
+    (mask : List Bool) (xs₁ : List α₁) (xs₂ : List α₂) (hxs : xs₁.map sh₁ = xs₂.map sh₂) :
+    (mapActive mask xs₁ f₁ k₁).map (List.map t₁) = (mapActive mask xs₂ f₂ k₂).map (List.map t₂) :=
+  mapActive_go_shape sh₁ sh₂ t₁ t₂ f₁ f₂ k₁ k₂ hf hk mask 0 xs₁ xs₂ hxs
+
+theorem any_length {σ : Type} (l : List (List σ)) (p : Nat → Bool) :
+    l.any (fun b => p b.length) = (l.map List.length).any p := by
+  rw [List.any_map]; rfl
+
+/-- both fail, or both succeed with results related by `Q` -/
+def OptRel {α β : Type} (Q : α → β → Prop) : Option α → Option β → Prop
+  | none, none => True
+  | some a, some b => Q a b
+  | _, _ => False
+
+theorem optRel_of_map {α β δ : Type} {t₁ : α → δ} {t₂ : β → δ} {a : Option (List α)} {b : Option (List β)}
+    (h : a.map (List.map t₁) = b.map (List.map t₂)) :
+    OptRel (fun x y => x.map t₁ = y.map t₂) a b := by
+  cases a <;> cases b <;> simp [OptRel] at h ⊢
+  exact h
+
+theorem optRel_cases {A₁ A₂ : Type} {Q : A₁ → A₂ → Prop} {r₁ : Option A₁} {r₂ : Option A₂}
+    (h : OptRel Q r₁ r₂) : (r₁ = none ∧ r₂ = none) ∨ ∃ a b, r₁ = some a ∧ r₂ = some b ∧ Q a b := by
+  cases r₁ <;> cases r₂ <;> simp only [OptRel] at h
+  · exact Or.inl ⟨rfl, rfl⟩
+  · exact Or.inr ⟨_, _, rfl, rfl, h⟩
+
+/-- the four combinations of the two `mapActive` results -/
+theorem optRel_split {A₁ A₂ : Type} {Q : A₁ → A₂ → Prop} {r₁ : Option A₁} {r₂ : Option A₂}
+    (h : OptRel Q r₁ r₂) :
+    (∀ b, r₁ = none → r₂ = some b → False) ∧ (∀ a, r₁ = some a → r₂ = none → False) ∧
+    (∀ a b, r₁ = some a → r₂ = some b → Q a b) := by
+  cases r₁ <;> cases r₂ <;> simp only [OptRel] at h
+  · exact ⟨fun _ _ h => by simp at h, fun _ h => by simp at h, fun _ _ h => by simp at h⟩
+  · refine ⟨fun _ h => by simp at h, fun _ _ h => by simp at h, fun a b h1 h2 => ?_⟩
+    simp only [Option.some.injEq] at h1 h2
+    subst h1 h2
+    exact h
+
+/-- what `fft_process_ctlEq` concludes, as a relation on results -/
+def FResEq (r₁ : FState σ₁ υ₁ × Outcome (FCallOut σ₁)) (r₂ : FState σ₂ υ₂ × Outcome (FCallOut σ₂)) : Prop :=
+  FCtlEq r₁.1 r₂.1 ∧ FOutEq r₁.2 r₂.2
+
+/-- **C17 for the FFT adapters, one call**: two synchronous resamplers over different sample types
+whose per-block units return blocks of equal length, in related states, given inputs of the same
+shape: same error / same panic / same counts, per-channel outputs of the same lengths, related
+states afterwards. -/
+theorem fft_process_ctlEq (da : DivArith) {u₁ : FftUnit σ₁ υ₁} {u₂ : FftUnit σ₂ υ₂} (hu : UnitLenEq u₁ u₂)
+    {s₁ : FState σ₁ υ₁} {s₂ : FState σ₂ υ₂} (h : FCtlEq s₁ s₂)
+    {in₁ : List (List σ₁)} {in₂ : List (List σ₂)} (hin : in₁.map List.length = in₂.map List.length)
+    (outLens : List Nat) (um : Option (List Bool)) :
+    FCtlEq (FState.process da u₁ s₁ in₁ outLens um).1 (FState.process da u₂ s₂ in₂ outLens um).1 ∧
+    FOutEq (FState.process da u₁ s₁ in₁ outLens um).2 (FState.process da u₂ s₂ in₂ outLens um).2 := by
+  show FResEq _ _
+  obtain ⟨k₁, nch₁, ci₁, co₁, fi₁, fo₁, sv₁, fn₁, ov₁, st₁, m₁⟩ := s₁
+  obtain ⟨k₂, nch₂, ci₂, co₂, fi₂, fo₂, sv₂, fn₂, ov₂, st₂, m₂⟩ := s₂
+  obtain ⟨e1, e2, e3, e4, e5, e6, e7, e8, e9, hov, hst⟩ := h
+  dsimp only at e1 e2 e3 e4 e5 e6 e7 e8 e9 hov hst
+  subst e1 e2 e3 e4 e5 e6 e7 e8 e9
+  have hunit := map_unit_of_length ov₁ ov₂ hov
+  unfold FState.process
+  dsimp only
+  cases updateMask nch₁ um with
+  | error e => exact ⟨⟨rfl, rfl, rfl, rfl, rfl, rfl, rfl, rfl, rfl, hov, hst⟩, rfl⟩
+  | ok mask =>
+    dsimp only
+    rw [hin]
+    cases k₁ with
+    | fftIo =>
+      dsimp only
+      cases validateBuffers (in₂.map List.length) outLens mask nch₁ ci₁ co₁ with
+      | error e => exact ⟨⟨rfl, rfl, rfl, rfl, rfl, rfl, rfl, rfl, rfl, hov, hst⟩, rfl⟩
+      | ok u =>
+        dsimp only
+        have hrel := optRel_of_map (mapActive_shape (fun p => ((), p.2.length)) (fun p => ((), p.2.length))
+          (fun r => r.2.map List.length) (fun r => r.2.map List.length)
+          (fIo u₁ fi₁ ci₁ co₁) (fIo u₂ fi₁ ci₁ co₁) (fun p => (p.1, none)) (fun p => (p.1, none))
+          (fIo_shape hu fi₁ ci₁ co₁) (fun _ _ _ => rfl) mask (List.zip ov₁ in₁) (List.zip ov₂ in₂)
+          (map_zip_congr _ _ _ _ _ _ _ _ hunit hin))
+        obtain ⟨c1, c2, c3⟩ := optRel_split hrel
+        split
+        · next _ h1 =>
+          split
+          · exact ⟨⟨rfl, rfl, rfl, rfl, rfl, rfl, rfl, rfl, rfl, hov, hst⟩, rfl⟩
+          · next _ rs₂ h2 => exact (c1 rs₂ h1 h2).elim
+        next _ rs₁ h1 =>
+        split
+        · next _ h2 => exact (c2 rs₁ h1 h2).elim
+        next _ rs₂ h2 =>
+        have hq := c3 rs₁ rs₂ h1 h2
+        have hlen : rs₁.length = rs₂.length := by simpa using congrArg List.length hq
+        refine ⟨⟨rfl, rfl, rfl, rfl, rfl, rfl, rfl, rfl, rfl, by simp [hlen], hst⟩, ?_⟩
+        simp only [FOutEq, List.map_map, true_and]
+        exact hq
+    | fftIn =>
+      dsimp only
+      cases validateBuffers (in₂.map List.length) outLens mask nch₁ ci₁ (da.fdiv (sv₁ + ci₁) fi₁ * fo₁) with
+      | error e => exact ⟨⟨rfl, rfl, rfl, rfl, rfl, rfl, rfl, rfl, rfl, hov, hst⟩, rfl⟩
+      | ok u =>
+        dsimp only
+        split
+        · exact ⟨⟨rfl, rfl, rfl, rfl, rfl, rfl, rfl, rfl, rfl, hov, hst⟩, rfl⟩
+        · have hrel := optRel_of_map (mapActive_shape
+            (fun p => (((), p.1.2.length), (p.2.1.length, p.2.2))) (fun p => (((), p.1.2.length), (p.2.1.length, p.2.2)))
+            rShape rShape
+            (fIn u₁ fi₁ fo₁ ci₁ sv₁ (sv₁ + ci₁) (da.fdiv (sv₁ + ci₁) fi₁) (da.fdiv (sv₁ + ci₁) fi₁ * fo₁)
+              (da.fdiv (sv₁ + ci₁) fi₁ * fi₁))
+            (fIn u₂ fi₁ fo₁ ci₁ sv₁ (sv₁ + ci₁) (da.fdiv (sv₁ + ci₁) fi₁) (da.fdiv (sv₁ + ci₁) fi₁ * fo₁)
+              (da.fdiv (sv₁ + ci₁) fi₁ * fi₁))
+            (fun p => (p.1.1, p.1.2, none)) (fun p => (p.1.1, p.1.2, none))
+            (fIn_shape hu _ _ _ _ _ _ _ _)
+            (fun x₁ x₂ hx => by
+              simp only [Prod.mk.injEq, true_and] at hx
+              simp only [rShape, hx.1, Option.map_none])
+            mask (List.zip (List.zip ov₁ st₁) (List.zip in₁ outLens)) (List.zip (List.zip ov₂ st₂) (List.zip in₂ outLens))
+            (map_zip_congr _ _ _ _ _ _ _ _ (map_zip_congr _ _ _ _ _ _ _ _ hunit hst)
+              (map_zip_congr (fun (l : List σ₁) => l.length) (fun (l : List σ₂) => l.length) (fun (n : Nat) => n) (fun (n : Nat) => n) _ _ _ _ hin rfl)))
+          obtain ⟨c1, c2, c3⟩ := optRel_split hrel
+          split
+          · next _ h1 =>
+            split
+            · exact ⟨⟨rfl, rfl, rfl, rfl, rfl, rfl, rfl, rfl, rfl, hov, hst⟩, rfl⟩
+            · next _ rs₂ h2 => exact (c1 rs₂ h1 h2).elim
+          next _ rs₁ h1 =>
+          split
+          · next _ h2 => exact (c2 rs₁ h1 h2).elim
+          next _ rs₂ h2 =>
+          have hq := c3 rs₁ rs₂ h1 h2
+          have hlen : rs₁.length = rs₂.length := by simpa using congrArg List.length hq
+          have h1 := congrArg (List.map Prod.fst) hq
+          have h2 := congrArg (List.map Prod.snd) hq
+          simp only [List.map_map, Function.comp_def, rShape] at h1 h2
+          refine ⟨⟨rfl, rfl, rfl, rfl, rfl, rfl, rfl, rfl, rfl, by simp [hlen], ?_⟩, ?_⟩
+          · simp only [List.map_map, Function.comp_def]; exact h1
+          · simp only [FOutEq, List.map_map, Function.comp_def, true_and]; exact h2
+    | fftOut =>
+      dsimp only
+      cases validateBuffers (in₂.map List.length) outLens mask nch₁ fn₁ co₁ with
+      | error e => exact ⟨⟨rfl, rfl, rfl, rfl, rfl, rfl, rfl, rfl, rfl, hov, hst⟩, rfl⟩
+      | ok u =>
+        dsimp only
+        generalize hcp : decide (sv₁ + fo₁ * (fn₁ / fi₁) ≥ co₁) = cp
+        generalize hsv' : (if cp = true then sv₁ + fo₁ * (fn₁ / fi₁) - co₁ else sv₁ + fo₁ * (fn₁ / fi₁)) = sv'
+        generalize (if co₁ > sv' then co₁ - sv' else 0) = no
+        rw [any_length st₁ (fun n => decide (sv₁ > n)), any_length st₂ (fun n => decide (sv₁ > n)),
+          any_length st₁ (fun n => decide (co₁ + sv' > n)), any_length st₂ (fun n => decide (co₁ + sv' > n)), hst]
+        by_cases hA : ((List.map List.length st₂).any fun n => decide (sv₁ > n)) = true
+        · rw [if_pos hA, if_pos hA]
+          exact ⟨⟨rfl, rfl, rfl, rfl, rfl, rfl, rfl, rfl, rfl, hov, hst⟩, rfl⟩
+        · rw [if_neg hA, if_neg hA]
+          by_cases hB : (cp && (List.map List.length st₂).any fun n => decide (co₁ + sv' > n)) = true
+          · rw [if_pos hB, if_pos hB]
+            exact ⟨⟨rfl, rfl, rfl, rfl, rfl, rfl, rfl, rfl, rfl, hov, hst⟩, rfl⟩
+          · rw [if_neg hB, if_neg hB]
+            have hrel := optRel_of_map (mapActive_shape
+              (fun p => (((), p.1.2.length), p.2.length)) (fun p => (((), p.1.2.length), p.2.length))
+              rShape rShape
+              (fOut u₁ fi₁ fo₁ co₁ sv₁ fn₁ sv' cp) (fOut u₂ fi₁ fo₁ co₁ sv₁ fn₁ sv' cp)
+              (fun p => (p.1.1, p.1.2, none)) (fun p => (p.1.1, p.1.2, none))
+              (fOut_shape hu _ _ _ _ _ _ _)
+              (fun x₁ x₂ hx => by
+                simp only [Prod.mk.injEq, true_and] at hx
+                simp only [rShape, hx.1, Option.map_none])
+              mask (List.zip (List.zip ov₁ st₁) in₁) (List.zip (List.zip ov₂ st₂) in₂)
+              (map_zip_congr _ _ (fun (l : List σ₁) => l.length) (fun (l : List σ₂) => l.length) _ _ _ _
+                (map_zip_congr _ _ _ _ _ _ _ _ hunit hst) hin))
+            obtain ⟨c1, c2, c3⟩ := optRel_split hrel
+            split
+            · next _ h1 =>
+              split
+              · exact ⟨⟨rfl, rfl, rfl, rfl, rfl, rfl, rfl, rfl, rfl, hov, hst⟩, rfl⟩
+              · next _ rs₂ h2 => exact (c1 rs₂ h1 h2).elim
+            next _ rs₁ h1 =>
+            split
+            · next _ h2 => exact (c2 rs₁ h1 h2).elim
+            next _ rs₂ h2 =>
+            have hq := c3 rs₁ rs₂ h1 h2
+            have hlen : rs₁.length = rs₂.length := by simpa using congrArg List.length hq
+            have h1 := congrArg (List.map Prod.fst) hq
+            have h2 := congrArg (List.map Prod.snd) hq
+            simp only [List.map_map, Function.comp_def, rShape] at h1 h2
+            refine ⟨⟨rfl, rfl, rfl, rfl, rfl, rfl, rfl, rfl, rfl, by simp [hlen], ?_⟩, ?_⟩
+            · simp only [List.map_map, Function.comp_def]; exact h1
+            · simp only [FOutEq, List.map_map, Function.comp_def, true_and]; exact h2
+
+end Fft
+section Fft2
+variable {σ₁ σ₂ υ₁ υ₂ : Type}
+
+theorem fft_getters_ctlEq (da : DivArith) {s₁ : FState σ₁ υ₁} {s₂ : FState σ₂ υ₂} (h : FCtlEq s₁ s₂) :
+    s₁.inputFramesNext = s₂.inputFramesNext ∧ FState.inputFramesMax da s₁ = FState.inputFramesMax da s₂ ∧
+    FState.outputFramesNext da s₁ = FState.outputFramesNext da s₂ ∧
+    s₁.outputFramesMax = s₂.outputFramesMax ∧ s₁.outputDelay = s₂.outputDelay := by
+  unfold FState.inputFramesNext FState.inputFramesMax FState.outputFramesNext FState.outputFramesMax
+    FState.outputDelay
+  rw [h.kind, h.chunkIn, h.chunkOut, h.fftIn, h.fftOut, h.saved, h.framesNeeded]
+  exact ⟨rfl, rfl, rfl, rfl, rfl⟩
+
+theorem map_length_replicate_length {σ : Type} (l : List (List σ)) (z : σ) :
+    (l.map fun b => List.replicate b.length z).map List.length = l.map List.length := by
+  simp [Function.comp_def]
+
+theorem fft_reset_ctlEq (da : DivArith) (u₁ : FftUnit σ₁ υ₁) (u₂ : FftUnit σ₂ υ₂) (z₁ : σ₁) (z₂ : σ₂)
+    {s₁ : FState σ₁ υ₁} {s₂ : FState σ₂ υ₂} (h : FCtlEq s₁ s₂) :
+    FCtlEq (FState.reset da u₁ z₁ s₁) (FState.reset da u₂ z₂ s₂) := by
+  obtain ⟨k₁, nch₁, ci₁, co₁, fi₁, fo₁, sv₁, fn₁, ov₁, st₁, m₁⟩ := s₁
+  obtain ⟨k₂, nch₂, ci₂, co₂, fi₂, fo₂, sv₂, fn₂, ov₂, st₂, m₂⟩ := s₂
+  obtain ⟨e1, e2, e3, e4, e5, e6, e7, e8, e9, hov, hst⟩ := h
+  dsimp only at e1 e2 e3 e4 e5 e6 e7 e8 e9 hov hst
+  subst e1 e2 e3 e4 e5 e6 e7 e8 e9
+  unfold FState.reset
+  cases k₁ <;> dsimp only <;>
+    exact ⟨rfl, rfl, rfl, rfl, rfl, rfl, rfl, rfl, rfl, by simp,
+      by first | exact hst | (rw [map_length_replicate_length, map_length_replicate_length]; exact hst)⟩
+
+/-- result of a constructor up to the sample type -/
+def FInitEq : Except CErr (FState σ₁ υ₁) → Except CErr (FState σ₂ υ₂) → Prop
+  | .ok s₁, .ok s₂ => FCtlEq s₁ s₂
+  | .error e₁, .error e₂ => e₁ = e₂
+  | _, _ => False
+
+theorem fft_init_ctlEq (da : DivArith) (u₁ : FftUnit σ₁ υ₁) (u₂ : FftUnit σ₂ υ₂) (z₁ : σ₁) (z₂ : σ₂)
+    (kind : FKind) (ri ro chunk sub nch : Nat) :
+    FInitEq (FState.init da u₁ z₁ kind ri ro chunk sub nch) (FState.init da u₂ z₂ kind ri ro chunk sub nch) := by
+  unfold FState.init
+  by_cases h0 : ri = 0 ∨ ro = 0
+  · simp only [h0, if_true, FInitEq]
+  · simp only [h0, if_false]
+    cases kind <;> dsimp only <;> simp only [FInitEq] <;>
+      exact ⟨rfl, rfl, rfl, rfl, rfl, rfl, rfl, rfl, rfl, by simp, by simp⟩
+
+/-- operations of a synchronous resampler (the setters always fail and change nothing) -/
+inductive FOp (σ : Type) where
+  | proc (input : List (List σ)) (outLens : List Nat) (mask : Option (List Bool))
+  | reset
+
+def FOpEq : FOp σ₁ → FOp σ₂ → Prop
+  | .proc i₁ o₁ m₁, .proc i₂ o₂ m₂ => i₁.map List.length = i₂.map List.length ∧ o₁ = o₂ ∧ m₁ = m₂
+  | .reset, .reset => True
+  | _, _ => False
+
+inductive FOpsEq : List (FOp σ₁) → List (FOp σ₂) → Prop
+  | nil : FOpsEq [] []
+  | cons {o₁ o₂ l₁ l₂} : FOpEq o₁ o₂ → FOpsEq l₁ l₂ → FOpsEq (o₁ :: l₁) (o₂ :: l₂)
+
+def fftStepOp {σ υ : Type} (da : DivArith) (u : FftUnit σ υ) (z : σ) (s : FState σ υ) : FOp σ → FState σ υ
+  | .proc i o m => (FState.process da u s i o m).1
+  | .reset => FState.reset da u z s
+
+def fftRun {σ υ : Type} (da : DivArith) (u : FftUnit σ υ) (z : σ) (s : FState σ υ) (ops : List (FOp σ)) :
+    FState σ υ := ops.foldl (fftStepOp da u z) s
+
+/-- **C17 for the FFT adapters, histories of any length** -/
+theorem fft_run_ctlEq (da : DivArith) {u₁ : FftUnit σ₁ υ₁} {u₂ : FftUnit σ₂ υ₂} (hu : UnitLenEq u₁ u₂)
+    (z₁ : σ₁) (z₂ : σ₂) {ops₁ : List (FOp σ₁)} {ops₂ : List (FOp σ₂)} (ho : FOpsEq ops₁ ops₂) :
+    ∀ {s₁ : FState σ₁ υ₁} {s₂ : FState σ₂ υ₂}, FCtlEq s₁ s₂ →
+      FCtlEq (fftRun da u₁ z₁ s₁ ops₁) (fftRun da u₂ z₂ s₂ ops₂) := by
+  induction ho with
+  | nil => intro s₁ s₂ h; exact h
+  | @cons o₁ o₂ l₁ l₂ h1 _ ih =>
+    intro s₁ s₂ h
+    simp only [fftRun, List.foldl_cons]
+    apply ih
+    cases o₁ <;> cases o₂ <;> simp only [FOpEq] at h1
+    · obtain ⟨hi, rfl, rfl⟩ := h1
+      exact (fft_process_ctlEq da hu h hi _ _).1
+    · exact fft_reset_ctlEq da u₁ u₂ z₁ z₂ h
+
+end Fft2
+
+/-! ### The IEEE instantiation (the theorems above at `ρ = f64`, `σ₁ = f32`, `σ₂ = f64`) -/
+
+/-- `f32` and `f64` resamplers: one call -/
+theorem process_ctlEq_f32_f64 {s₁ : AState Float Float32} {s₂ : AState Float Float}
+    {a₁ : CallArgs Float32} {a₂ : CallArgs Float} (h : CtlEq s₁ s₂) (ha : ArgsEq a₁ a₂) :
+    CtlEq (s₁.process a₁).1 (s₂.process a₂).1 ∧ OutEq (s₁.process a₁).2 (s₂.process a₂).2 :=
+  process_ctlEq h ha
+
+/-- `f32` and `f64` resamplers built with the same parameters: whole histories -/
+theorem trace_eq_f32_f64 (kind : AKind) (ratio maxRel : Float) (deg : Degree) (sint : SincInterp)
+    (ip₁ : Interp Float32) (ip₂ : Interp Float) (hl : ip₁.len = ip₂.len) (hn : ip₁.nbr = ip₂.nbr) (chunk nch : Nat)
+    (s₁ : AState Float Float32) (s₂ : AState Float Float)
+    (h₁ : AState.init kind ratio maxRel deg sint ip₁ chunk nch = .ok s₁)
+    (h₂ : AState.init kind ratio maxRel deg sint ip₂ chunk nch = .ok s₂)
+    {ops₁ : List (AOp Float Float32)} {ops₂ : List (AOp Float Float)} (ho : OpsEq ops₁ ops₂) :
+    obsTrace s₁ ops₁ = obsTrace s₂ ops₂ :=
+  (trace_eq_from_init kind ratio maxRel deg sint ip₁ ip₂ hl hn chunk nch s₁ s₂ h₁ h₂ ho).1
 
 end Rubato.Indep
